@@ -73,6 +73,11 @@ def main(argv):
         if replay:
             with open(replay, encoding='utf-8') as f:
                 obj = json.load(f)
+            if obj.get('optimised') and not sys.flags.optimize:
+                # found in an interpreter started with -O (asserts compiled away): replay it in one
+                os.environ['PYTHONDONTWRITEBYTECODE'] = '1'
+                sys.stdout.flush()
+                os.execv(sys.executable, [sys.executable, '-O', os.path.abspath(__file__)] + sys.argv[1:])
             return eng.replay(R, obj)
         print("VERIF_SEED=%d tier=%s property=%s repo=%s tree=%s workers=%d" % (
             seed, tier, prop, R.path, R.tree[:12], core.nproc()))
